@@ -66,7 +66,8 @@ func runScript(script []string, fl flags) *runResult {
 			continue
 		}
 		st := &step{line: line, casBefore: w.cas.copyMap(), acBefore: w.ac.copyMap(),
-			faultPut: w.cas.putErr, faultPutEarly: w.cas.putEarly, faultGet: w.cas.getErr, faultFm: w.cas.fmErr}
+			faultPut: w.cas.putErr, faultPutEarly: w.cas.putEarly, faultGet: w.cas.getErr, faultFm: w.cas.fmErr,
+			streamPiece: w.cas.streamPiece, streamFail: w.cas.streamFail}
 		w.cas.fmAsked = nil
 		casPuts0, acPuts0 := len(w.cas.putLog), len(w.ac.putLog)
 		mutating := false
@@ -90,6 +91,28 @@ func runScript(script []string, fl flags) *runResult {
 				w.cas.blobs[key(f[1], n)] = data
 			} else {
 				w.ac.blobs[key(f[1], n)] = data
+			}
+			st.reply = "ok"
+		case "getmode":
+			switch {
+			case len(f) == 2 && f[1] == "slice":
+				w.cas.streamPiece = 0
+			case len(f) == 5 && f[1] == "stream":
+				piece, err1 := strconv.Atoi(f[2])
+				code, err2 := strconv.Atoi(f[4])
+				k := -1
+				var err3 error
+				if f[3] != "-" {
+					k, err3 = strconv.Atoi(f[3])
+				}
+				if err1 != nil || err2 != nil || err3 != nil || piece <= 0 {
+					res.err = fmt.Errorf("bad line %q", line)
+					return res
+				}
+				w.cas.streamPiece, w.cas.streamFail, w.cas.streamCode = piece, k, codes.Code(code)
+			default:
+				res.err = fmt.Errorf("bad line %q", line)
+				return res
 			}
 			st.reply = "ok"
 		case "fault":
